@@ -106,6 +106,8 @@ def cases(group):
                 if not group.get("int_dtype") and est in ("default", "linreg-noint"):
                     # the same fit on a USED estimator whose caller reuses (refills in place) its arrays
                     yield dict(kind="general", X=group["X"], Y=group["Y"], mode=mode, est=est, int_dtype=False, used=True)
+                    for u in (2.0 ** -13, 2.0 ** 17):
+                        yield dict(kind="general", X=group["X"], Y=group["Y"], mode=mode, est=est, int_dtype=False, unit=u)
     else:
         dx, dy = group["dx"], group["dy"]
         dmax = max(dx, dy)
@@ -120,6 +122,9 @@ def cases(group):
                     yield dict(kind="planted", X=group["X"], Q=Q, mode=mode, est=est)
                     if est == "default":
                         yield dict(kind="planted", X=group["X"], Q=Q, mode=mode, est=est, used=True)
+                    if est in ("default", "linreg-noint"):
+                        for u in (2.0 ** -13, 2.0 ** 17):
+                            yield dict(kind="planted", X=group["X"], Q=Q, mode=mode, est=est, unit=u)
 
 
 def _estimator(spec, X=None, Y=None):
@@ -174,6 +179,9 @@ def check(case):
         Y = X @ Q
     else:
         Y = np.array(case["Y"], float)
+    if case.get("unit"):  # the same problem in small / large units (an exact power of two on both sides)
+        X = X * case["unit"]
+        Y = Y * case["unit"]
     n, dx = X.shape
     dy = Y.shape[1]
     mode, spec = case["mode"], case["est"]
@@ -207,7 +215,7 @@ def check(case):
     r.states = 1
     r.transitions = 1
     scale = float((X ** 2).sum() + (Y ** 2).sum())
-    tolr = 1e-7 * scale + 1e-12
+    tolr = 1e-7 * scale + 1e-12 * min(1.0, scale)
     ncomp = 0
     if mode == "padded":
         dm = max(dx, dy)
@@ -234,7 +242,7 @@ def check(case):
                 r.fail("competitor-has-smaller-residual", "residual %.10g < %.10g" % (rc, res))
                 break
         pn, xn = np.linalg.norm(pred, axis=1), np.linalg.norm(X, axis=1)
-        if (pn > xn * (1 + 1e-9) + 1e-12).any():
+        if (pn > xn * (1 + 1e-9) + 1e-12 * min(1.0, float(np.abs(X).max()))).any():
             r.fail("prediction-norm-exceeds-input-norm", "")
         if case["kind"] == "planted" and dx <= dy:
             if res > tolr:
@@ -250,7 +258,7 @@ def check(case):
         if np.minimum(np.abs(sv), np.abs(sv - 1)).max() > 1e-8:
             r.fail("singular-values-not-0-or-1", "%s" % sv.tolist())
         pn, xn = np.linalg.norm(pred, axis=1), np.linalg.norm(X, axis=1)
-        if (pn > xn * (1 + 1e-9) + 1e-12).any():
+        if (pn > xn * (1 + 1e-9) + 1e-12 * min(1.0, float(np.abs(X).max()))).any():
             r.fail("prediction-norm-exceeds-input-norm", "")
         C = _ref_coef(spec, X, Y)
         U, s, Vt = np.linalg.svd(C, full_matrices=False)
